@@ -14,7 +14,8 @@ from harness.csbuild import snap_set, mutable_ids
 DOCS = {
     "srt": ("1\n00:00:01,000 --> 00:00:02,000\nfoo\n", "1\n00:00:03,000 --> 00:00:04,000\nbar\nbaz\n\n2\n00:00:05,000 --> 00:00:06,000\nqux\n"),
     "vtt": ("WEBVTT\n\n00:01.000 --> 00:02.000\nfoo\n", "WEBVTT\n\n00:03.000 --> 00:04.000 align:left\nbar\nbaz\n\n00:05.000 --> 00:06.000\nqux\n"),
-    "mdvd": ("{25}{50}foo\n", "{75}{100}bar|baz\n{125}{150}qux\n"),
+    # the first document declares its own frame rate, the second relies on the default
+    "mdvd": ("{0}{0}23.976\n{25}{50}foo\n", "{75}{100}bar|baz\n{125}{150}qux\n"),
     # first document ends on row 14, the second one starts with a preamble for row 15 (the row right below)
     "scc": ("Scenarist_SCC V1.0\n\n00:00:01:00\t9420 94d0 c162 942f\n\n00:00:05:00\t942c\n",
             "Scenarist_SCC V1.0\n\n00:00:11:00\t9420 9470 c1c2 942f\n\n00:00:15:00\t942c\n\n00:00:16:00\t9420 9454 c1c2 9470 c162 942f\n\n00:00:19:00\t942c\n"),
@@ -84,6 +85,23 @@ def reuse_pure(r: int, first: bool) -> str:
         return "a used reader object reads differently from a fresh one"
     again = snap_set(reader.read(d2))
     return "" if again == want else "third read differs"
+
+
+def plain_results_disjoint(r: int, same_reader: bool, first: bool) -> str:
+    """
+    pre: 0 <= r < 4
+    post: _ == ""
+    """
+    # two results (of one reader object or of two) share no mutable object: no in-place edit of one can reach the other
+    k, R = _reader(r)
+    doc = DOCS[k][0 if first else 1]
+    r1 = R()
+    a = r1.read(doc)
+    b = (r1 if same_reader else R()).read(doc)
+    ida = mutable_ids(a)
+    idb = mutable_ids(b)
+    shared = [t for oid, t in ida.items() if oid in idb]
+    return "" if not shared else "two results share mutable objects: " + ", ".join(sorted(set(shared)))
 
 
 # --- hash seeds: SAMI language order -------------------------------------------------------------
